@@ -275,10 +275,19 @@ def check_l3(run: Run, prog: Program, ledgers: dict[str, Ledgers]) -> None:
     fn = prog.func(f"{BDA}._distribute_power")
     lg = ledgers["_distribute_power"]
     te = TermEval()
-    rets = [n for n in body_walk(fn.node) if isinstance(n, ast.Return) and isinstance(n.value, ast.Call)
-            and u(n.value.func) == "DistributionResult"]
+    all_rets = [n for n in body_walk(fn.node) if isinstance(n, ast.Return)]
+    rets = [n for n in all_rets if isinstance(n.value, ast.Call) and u(n.value.func) == "DistributionResult"]
+    for r in all_rets:
+        if r not in rets:
+            run.violation("C01.L3", fn.qual, r,
+                          "a return path of the allocation routine does not build its DistributionResult "
+                          "from the allocation cells and the remainder ledger (e.g. it reuses the "
+                          "zero-request result, so set-points + remainder no longer equal the request)",
+                          node=r, file=fn.file)
     if len(rets) < 2:
-        raise AnalysisError(f"{fn.qual}: expected the early and the final DistributionResult return")
+        if not rets:
+            raise AnalysisError(f"{fn.qual}: no DistributionResult return found")
+        rets = [rets[0], rets[0]] if all_rets and all_rets[-1] is rets[0] else rets + rets
     request = fn.params[2]  # power_w
     final = rets[-1]
     kws = {k.arg: k.value for k in final.value.keywords}  # type: ignore[union-attr]
@@ -360,6 +369,8 @@ def check_l3(run: Run, prog: Program, ledgers: dict[str, Ledgers]) -> None:
               node=final, file=fn.file)
     # early exit: all zero cells, remainder == request
     early = rets[0]
+    if early is final:
+        return
     args = list(early.value.args) + [k.value for k in early.value.keywords]  # type: ignore[union-attr]
     ok = len(args) == 2
     if ok:
@@ -501,6 +512,31 @@ def check_b(run: Run, prog: Program) -> None:
     run.check(ok, "C01.B", fn.qual, "self._set_distributed_power(distribution, ...)",
               "the distribution handed to the API layer is not the one that was computed",
               node=fn.node, file=fn.file)
+    gp = prog.func(f"{BM}._get_power_distribution")
+    run.analysed(gp.qual)
+    calls = find_calls(gp.node, lambda c: method_call(c, "self._distribution_algorithm", "distribute_power"))
+    ok = len(calls) == 1 and te.ev(calls[0].args[0]) == Poly.atom("request.power") and len(calls[0].args) == 2
+    run.check(ok, "C01.B", gp.qual, "distribute_power(request.power.as_watts(), pairs)",
+              "the manager does not hand the requested power unchanged to the distribution algorithm",
+              node=gp.node, file=gp.file)
+    res_name = None
+    for s2 in body_walk(gp.node):
+        if isinstance(s2, ast.Assign) and calls and s2.value is calls[0]:
+            res_name = u(s2.targets[0])
+    rets = [r for r in body_walk(gp.node) if isinstance(r, ast.Return)]
+    tampered = [s2 for s2 in body_walk(gp.node) if isinstance(s2, (ast.Assign, ast.AugAssign)) and any(
+        u(t).startswith(f"{res_name}.") or u(t).startswith(f"{res_name}[")
+        for t in (s2.targets if isinstance(s2, ast.Assign) else [s2.target]))]
+    ok = res_name is not None and len(rets) == 1 and u(rets[0].value) == res_name and not tampered
+    run.check(ok, "C01.B", gp.qual, "the algorithm's result is returned untouched",
+              "the manager rewrites the algorithm's set-points or remainder after the fact: what is "
+              "reported as succeeded/excess no longer matches what is commanded", node=(tampered or [gp.node])[0],
+              file=gp.file)
+    gd = prog.func(f"{BM}._get_distribution")
+    dcalls = find_calls(gd.node, lambda c: method_call(c, "self", "_get_power_distribution"))
+    ok = len(dcalls) == 1 and [u(a) for a in dcalls[0].args][:1] == [gd.params[1]]
+    run.check(ok, "C01.B", gd.qual, "_get_power_distribution(request, ...)",
+              "the distribution is computed for a different request", node=gd.node, file=gd.file)
     sd = prog.func(f"{BM}._set_distributed_power")
     run.analysed(sd.qual)
     sp = find_calls(sd.node, lambda c: isinstance(c.func, ast.Attribute) and c.func.attr == "set_power")
@@ -562,7 +598,7 @@ def check(run: Run, prog: Program, tier: str) -> str:
     run.floor("C01.L2", 2)
     run.floor("C01.L3", 6)
     run.floor("C01.S", 9)
-    run.floor("C01.B", 3)
+    run.floor("C01.B", 6)
     from ..engine.controls import run_controls
 
     run_controls(run, CONTROLS, run_rules, tier)
